@@ -365,6 +365,12 @@ def make_hook(rd: RefdomInfo, captured: dict):
         if name == "numpy.max":
             v = args[0]
             if isinstance(v, ConnTable):
+                if v.kind == "vertex":
+                    # the largest vertex number in use is not the number
+                    # of stored points (unused trailing points are an
+                    # admissible state); facets / edges are derived from
+                    # the cells, so every one of them is in use
+                    return Poly.sym("maxv") + v.offset
                 return COUNT[v.kind] - 1 + v.offset
             return NotImplemented
         if name == "numpy.arange":
